@@ -138,6 +138,12 @@ Module Examples.
     run_stream 1000 false no_filter [Wt ka 3; V ka 2 [2]; Wt ka 1] = ([Wt ka 1], [V ka 2 [2]]).
   Proof. vm_compute; reflexivity. Qed.
 
+  (* a weak tombstone also cancels a separated value (Ind) *)
+  Example ex_weak_pair_ind :
+    run_stream 1000 false no_filter [Wt ka 3; mkE ka 2 Ind [2]; Wt ka 1]
+    = ([Wt ka 1], [mkE ka 2 Ind [2]]).
+  Proof. vm_compute; reflexivity. Qed.
+
   (* drain_key stops at a weak tombstone unless evicting *)
   Example ex_drain_stops_at_weak :
     run_stream 1000 false no_filter [V ka 5 [5]; Wt ka 4; V ka 3 [3]] = ([V ka 5 [5]], [V ka 3 [3]])
@@ -325,6 +331,9 @@ Proof. intros U I e1 e2 H1 H2. apply U; apply I; assumption. Qed.
 
 (** * 2. One-step decomposition of [cstream] *)
 
+(** a non-tombstone: an inline value or a value separated into a blob file *)
+Definition is_val (e : entry) : bool := negb (is_tomb e).
+
 (** what happens to a head that survived the filter, given the rest of the input:
     (is it emitted?, mode for the rest) *)
 Definition emit_dec (W : N) (evict : bool) (head : entry) (rest : list entry)
@@ -335,7 +344,7 @@ Definition emit_dec (W : N) (evict : bool) (head : entry) (rest : list entry)
       if key_ltb (ukey head) (ukey peeked) then (negb (is_tomb head && evict), NoDrain)
       else if seq peeked <? W then
         if is_strong_tomb head && evict then (false, Drain (ukey head))
-        else if is_value peeked && is_weak_tomb head then (false, DropNext)
+        else if is_val peeked && is_weak_tomb head then (false, DropNext)
         else (true, Drain (ukey head))
       else (true, NoDrain)
   end.
@@ -366,7 +375,7 @@ Proof.
         { cbn [fst snd].
           destruct (cstream W evict flt (Drain (ukey head)) (peeked :: rest')) as [o d].
           reflexivity. }
-        destruct (is_value peeked && is_weak_tomb head); cbn [fst snd].
+        unfold is_val. destruct (negb (is_tomb peeked) && is_weak_tomb head); cbn [fst snd].
         { destruct (cstream W evict flt DropNext (peeked :: rest')) as [o d]. reflexivity. }
         destruct (cstream W evict flt (Drain (ukey head)) (peeked :: rest')) as [o d].
         reflexivity.
@@ -480,7 +489,7 @@ Proof.
   unfold emit_dec. destruct rest as [|p r]; [auto|].
   destruct (key_ltb (ukey h) (ukey p)); [auto|]. destruct (seq p <? W); [|auto].
   destruct (is_strong_tomb h && evict); [auto|].
-  destruct (is_value p && is_weak_tomb h); auto.
+  destruct (is_val p && is_weak_tomb h); auto.
 Qed.
 
 Lemma ssorted_peek_same_key e p r h :
@@ -496,7 +505,7 @@ Lemma emit_dec_inv W evict e h rest :
   dr_ok (snd (emit_dec W evict h rest)) rest /\ drW W (snd (emit_dec W evict h rest)) rest /\
   (snd (emit_dec W evict h rest) = DropNext ->
    is_weak_tomb h = true /\
-   exists p r, rest = p :: r /\ ukey p = ukey e /\ is_value p = true /\ seq p < W).
+   exists p r, rest = p :: r /\ ukey p = ukey e /\ is_val p = true /\ seq p < W).
 Proof.
   intros HS Ek. unfold emit_dec. destruct rest as [|p r].
   { cbn. repeat split; auto; discriminate. }
@@ -514,7 +523,7 @@ Proof.
       eapply ssorted_same_key_seq; [eapply ssorted_tail; eauto | exact HI | congruence]. }
   destruct (is_strong_tomb h && evict).
   { cbn [snd]. repeat split; auto; discriminate. }
-  destruct (is_value p && is_weak_tomb h) eqn:WP; cbn [snd].
+  destruct (is_val p && is_weak_tomb h) eqn:WP; cbn [snd].
   - apply andb_true_iff in WP. destruct WP as [WP1 WP2].
     split; [exact I|]. split; [exact C|]. intros _. split; [exact WP2|].
     exists p, r. auto.
@@ -544,7 +553,7 @@ Proof.
       * cbn [fst snd]. intros _. apply andb_true_iff in SE. destruct SE as [SE1 SE2].
         split; [|left; auto].
         unfold is_tomb, is_strong_tomb in *. destruct (ty h); try discriminate; reflexivity.
-      * destruct (is_value p && is_weak_tomb h) eqn:WP; cbn [fst snd]; [|discriminate].
+      * destruct (is_val p && is_weak_tomb h) eqn:WP; cbn [fst snd]; [|discriminate].
         intros _. apply andb_true_iff in WP. destruct WP as [_ WP].
         split; [|right; right; auto].
         unfold is_tomb, is_weak_tomb in *. destruct (ty h); try discriminate; reflexivity.
@@ -1023,7 +1032,7 @@ Proof.
     { revert Hd. unfold emit_dec. destruct (key_ltb (ukey e) (ukey p)); [discriminate|].
       destruct (seq p <? W); [|discriminate].
       destruct (is_strong_tomb e && evict); [discriminate|].
-      destruct (is_value p && is_weak_tomb e); [reflexivity | discriminate]. }
+      destruct (is_val p && is_weak_tomb e); [reflexivity | discriminate]. }
     rewrite B, Hd. unfold olist. cbn [app]. rewrite outs_cons. cbn [draining after_drop].
     intros h HI Hk. apply in_app_or in HI. destruct HI as [HI|HI]; [left; auto|]. right.
     destruct (subik_in _ _ _ (outs_subik W evict no_filter l3 _) HI) as (y & YI & Yk & Ys).
@@ -1099,7 +1108,8 @@ Qed.
     - [e] is the oldest version: removed iff [evict];
     - [p] is below the watermark and [e] is a strong tombstone and [evict]: [e] and
       everything older is removed;
-    - [p] is below the watermark, [e] is weak and [p] is a Value: exactly the pair [e], [p]
+    - [p] is below the watermark, [e] is weak and [p] is not a tombstone (an inline or a
+      separated value): exactly the pair [e], [p]
       is removed, the snapshot then reads whatever the stream left of the versions
       older than [p];
     - otherwise [e] is emitted. *)
@@ -1109,7 +1119,7 @@ Definition tomb_fate (W : N) (evict : bool) (e : entry) (l out : list entry) : o
   | Some p =>
       if seq p <? W then
         if is_strong_tomb e && evict then None
-        else if is_value p && is_weak_tomb e then newest (ukey e) (seq p) out
+        else if is_val p && is_weak_tomb e then newest (ukey e) (seq p) out
         else Some e
       else Some e
   end.
@@ -1165,7 +1175,7 @@ Proof.
     + destruct (seq p <? W); [|apply A; reflexivity].
       destruct (is_strong_tomb e && evict).
       * apply B; [reflexivity | discriminate].
-      * destruct (is_value p && is_weak_tomb e); [|apply A; reflexivity].
+      * destruct (is_val p && is_weak_tomb e); [|apply A; reflexivity].
         destruct (C eq_refl) as (p' & l3 & Ep' & R). injection Ep' as <- <-. exact R.
 Qed.
 
@@ -1677,7 +1687,7 @@ Proof.
     rewrite kents_cons, Kp. unfold emit_dec. rewrite KL.
     destruct (seq p <? W); [|reflexivity].
     destruct (is_strong_tomb h && evict); [reflexivity|].
-    destruct (is_value p && is_weak_tomb h); cbn [fst snd dr_for]; rewrite ?Kp; reflexivity.
+    destruct (is_val p && is_weak_tomb h); cbn [fst snd dr_for]; rewrite ?Kp; reflexivity.
 Qed.
 
 (** the stream treats every key independently: its output restricted to key [k] is its
@@ -1754,23 +1764,27 @@ Qed.
 
 (** ** The single-delete discipline *)
 
-(** weak tombstone or value *)
-Definition wv (e : entry) : bool := is_weak_tomb e || is_value e.
+(** weak tombstone or (inline / separated) value *)
+Definition wv (e : entry) : bool := is_weak_tomb e || is_val e.
 
-(** newest first: only weak tombstones and values, strictly alternating *)
+(** newest first: weak tombstones and non-tombstones strictly alternate; no strong
+    tombstone occurs *)
 Fixpoint alternating (xs : list entry) : bool :=
   match xs with
   | [] => true
   | x :: r =>
       wv x
-      && match r with [] => true | y :: _ => negb (vtype_eqb (ty x) (ty y)) end
+      && match r with
+         | [] => true
+         | y :: _ => negb (Bool.eqb (is_weak_tomb x) (is_weak_tomb y))
+         end
       && alternating r
   end.
 
 Fixpoint last_value (xs : list entry) : bool :=
   match xs with
   | [] => false
-  | x :: r => match r with [] => is_value x | _ :: _ => last_value r end
+  | x :: r => match r with [] => is_val x | _ :: _ => last_value r end
   end.
 
 (** what the stream does to a disciplined key history [xs], giving [o]:
@@ -1780,14 +1794,26 @@ Fixpoint last_value (xs : list entry) : bool :=
 Inductive wred (evict : bool) : list entry -> list entry -> Prop :=
 | wr_nil : wred evict [] []
 | wr_keep x o xs : wred evict o xs -> wred evict (x :: o) (x :: xs)
-| wr_pair w v o xs : is_weak_tomb w = true -> is_value v = true ->
+| wr_pair w v o xs : is_weak_tomb w = true -> is_val v = true ->
     wred evict o xs -> wred evict o (w :: v :: xs)
-| wr_drain x xs : evict = true -> is_value x = true -> wred evict [x] (x :: xs)
+| wr_drain x xs : evict = true -> is_val x = true -> wred evict [x] (x :: xs)
 | wr_last w : evict = true -> is_weak_tomb w = true -> wred evict [] [w].
 
-Lemma wv_cases x : wv x = true -> ty x = Value \/ ty x = WeakTomb.
+Lemma wv_cases x : wv x = true -> is_val x = true \/ is_weak_tomb x = true.
+Proof. unfold wv. intros H. apply orb_true_iff in H. tauto. Qed.
+
+Lemma val_facts x : is_val x = true ->
+  is_weak_tomb x = false /\ is_tomb x = false /\ is_strong_tomb x = false.
 Proof.
-  unfold wv, is_weak_tomb, is_value. destruct (ty x); cbn; try discriminate; auto.
+  unfold is_val, is_weak_tomb, is_tomb, is_strong_tomb.
+  destruct (ty x); cbn; try discriminate; auto.
+Qed.
+
+Lemma weak_facts x : is_weak_tomb x = true ->
+  is_val x = false /\ is_tomb x = true /\ is_strong_tomb x = false.
+Proof.
+  unfold is_val, is_weak_tomb, is_tomb, is_strong_tomb.
+  destruct (ty x); cbn; try discriminate; auto.
 Qed.
 
 Lemma alt_cons_inv1 x r : alternating (x :: r) = true -> wv x = true /\ alternating r = true.
@@ -1799,24 +1825,26 @@ Qed.
 Lemma alt_cons_inv x y r :
   alternating (x :: y :: r) = true ->
   alternating (y :: r) = true /\
-  ((ty x = Value /\ ty y = WeakTomb) \/ (ty x = WeakTomb /\ ty y = Value)).
+  ((is_val x = true /\ is_weak_tomb y = true) \/ (is_weak_tomb x = true /\ is_val y = true)).
 Proof.
   intros H. destruct (alt_cons_inv1 _ _ H) as [Wx HA]. split; [exact HA|].
   destruct (alt_cons_inv1 _ _ HA) as [Wy _].
   change (alternating (x :: y :: r))
-    with (wv x && negb (vtype_eqb (ty x) (ty y)) && alternating (y :: r)) in H.
+    with (wv x && negb (Bool.eqb (is_weak_tomb x) (is_weak_tomb y)) && alternating (y :: r)) in H.
   apply andb_true_iff in H. destruct H as [H _]. apply andb_true_iff in H. destruct H as [_ H].
-  destruct (wv_cases _ Wx) as [Ex|Ex], (wv_cases _ Wy) as [Ey|Ey];
-    rewrite Ex, Ey in H; try discriminate; auto.
+  destruct (wv_cases _ Wx) as [Ex|Ex], (wv_cases _ Wy) as [Ey|Ey]; auto.
+  - destruct (val_facts _ Ex) as (Ax & _), (val_facts _ Ey) as (Ay & _).
+    rewrite Ax, Ay in H. discriminate.
+  - rewrite Ex, Ey in H. discriminate.
 Qed.
 
 Lemma alt_cons_intro x z :
   wv x = true -> alternating z = true ->
-  (forall y t, z = y :: t -> ty x <> ty y) -> alternating (x :: z) = true.
+  (forall y t, z = y :: t -> is_weak_tomb x <> is_weak_tomb y) -> alternating (x :: z) = true.
 Proof.
   intros Wx HA H. cbn [alternating]. rewrite Wx, HA, andb_true_r. cbn [andb].
   destruct z as [|y t]; [reflexivity|]. specialize (H y t eq_refl).
-  destruct (ty x), (ty y); try reflexivity; congruence.
+  destruct (is_weak_tomb x), (is_weak_tomb y); try reflexivity; congruence.
 Qed.
 
 Lemma alt_app_l a b : alternating (a ++ b) = true -> alternating a = true.
@@ -1824,21 +1852,10 @@ Proof.
   induction a as [|x a IH]; [reflexivity|]. cbn [app]. intros H.
   destruct (alt_cons_inv1 _ _ H) as [Wx HA]. specialize (IH HA).
   apply alt_cons_intro; auto. intros y t ->. cbn [app] in H.
-  destruct (alt_cons_inv _ _ _ H) as [_ [[-> ->]|[-> ->]]]; discriminate.
+  destruct (alt_cons_inv _ _ _ H) as [_ [[Ex Ey]|[Ex Ey]]].
+  - destruct (val_facts _ Ex) as (-> & _). rewrite Ey. discriminate.
+  - destruct (val_facts _ Ey) as (-> & _). rewrite Ex. discriminate.
 Qed.
-
-Lemma ty_value x : ty x = Value ->
-  is_value x = true /\ is_weak_tomb x = false /\ is_tomb x = false /\ is_strong_tomb x = false.
-Proof. unfold is_value, is_weak_tomb, is_tomb, is_strong_tomb. intros ->. auto. Qed.
-
-Lemma ty_weak x : ty x = WeakTomb ->
-  is_value x = false /\ is_weak_tomb x = true /\ is_tomb x = true /\ is_strong_tomb x = false.
-Proof. unfold is_value, is_weak_tomb, is_tomb, is_strong_tomb. intros ->. auto. Qed.
-
-Lemma is_value_ty x : is_value x = true -> ty x = Value.
-Proof. unfold is_value. destruct (ty x); try discriminate; reflexivity. Qed.
-Lemma is_weak_ty x : is_weak_tomb x = true -> ty x = WeakTomb.
-Proof. unfold is_weak_tomb. destruct (ty x); try discriminate; reflexivity. Qed.
 
 Lemma outs_drain_all W flt k xs :
   (forall x, In x xs -> ukey x = k) -> outs W true flt (Drain k) xs = [].
@@ -1872,8 +1889,8 @@ Proof.
     + unfold emit_dec. cbn [fst snd]. rewrite outs_nil, app_nil_r.
       destruct (alt_cons_inv1 _ _ HA) as [Wx _].
       destruct (wv_cases _ Wx) as [Ex|Ex].
-      * destruct (ty_value _ Ex) as (_ & _ & -> & _). cbn. apply wr_keep, wr_nil.
-      * destruct (ty_weak _ Ex) as (_ & Hw & -> & _). destruct evict; cbn.
+      * destruct (val_facts _ Ex) as (_ & -> & _). cbn. apply wr_keep, wr_nil.
+      * destruct (weak_facts _ Ex) as (_ & -> & _). destruct evict; cbn.
         -- now apply wr_last.
         -- apply wr_keep, wr_nil.
     + destruct (alt_cons_inv _ _ _ HA) as [HA' Kinds].
@@ -1886,15 +1903,14 @@ Proof.
       destruct (seq p <? W).
       * destruct Kinds as [[Ex Ep]|[Ex Ep]].
         -- (* value over an expired weak tombstone *)
-           destruct (ty_value _ Ex) as (Vx & Wx & _ & ->).
-           destruct (ty_weak _ Ep) as (-> & Wp & _ & _). cbn [andb fst snd olist app].
+           destruct (val_facts _ Ex) as (Wx & _ & ->).
+           destruct (weak_facts _ Ep) as (-> & _ & _). cbn [andb fst snd olist app].
            destruct evict.
            ++ rewrite outs_drain_all; [|exact HK']. now apply wr_drain.
-           ++ rewrite (outs_drain_stops W no_filter k p r Wp).
+           ++ rewrite (outs_drain_stops W no_filter k p r Ep).
               apply wr_keep. apply IH; auto. cbn [length]. lia.
         -- (* weak tombstone over an expired value: exactly the pair goes *)
-           destruct (ty_weak _ Ex) as (_ & Wx & _ & ->).
-           destruct (ty_value _ Ep) as (Vp & _ & _ & _). rewrite Vp, Wx.
+           destruct (weak_facts _ Ex) as (_ & _ & ->). rewrite Ep, Ex.
            cbn [andb fst snd olist app]. rewrite outs_cons. cbn [draining after_drop].
            apply wr_pair; auto. apply IH.
            ++ lia.
@@ -1918,7 +1934,7 @@ Qed.
 Definition hk (o xs : list entry) : Prop :=
   match xs with
   | [] => o = []
-  | x :: _ => if is_value x then exists t, o = x :: t
+  | x :: _ => if is_val x then exists t, o = x :: t
               else o = [] \/ exists w t, o = w :: t /\ is_weak_tomb w = true
   end.
 
@@ -1926,8 +1942,8 @@ Lemma hk_refl z : alternating z = true -> hk z z.
 Proof.
   destruct z as [|x t]; [reflexivity|]. intros HA. cbn [hk].
   destruct (alt_cons_inv1 _ _ HA) as [Wx _]. destruct (wv_cases _ Wx) as [Ex|Ex].
-  - destruct (ty_value _ Ex) as (-> & _). eauto.
-  - destruct (ty_weak _ Ex) as (-> & Hw & _). right. eauto.
+  - rewrite Ex. eauto.
+  - destruct (weak_facts _ Ex) as (-> & _). right. eauto.
 Qed.
 
 Lemma wred_alt evict o xs : wred evict o xs ->
@@ -1943,30 +1959,30 @@ Proof.
       * cbn [hk] in A2. rewrite A2 in Ey. discriminate.
       * destruct (alt_cons_inv _ _ _ HA) as [_ Kinds]. cbn [hk] in A2.
         destruct Kinds as [[Ex Ez]|[Ex Ez]].
-        -- destruct (ty_weak _ Ez) as (Vz & _). rewrite Vz in A2.
+        -- destruct (weak_facts _ Ez) as (Vz & _). rewrite Vz in A2.
+           destruct (val_facts _ Ex) as (-> & _).
            destruct A2 as [A2|(w & t' & A2 & Hw)]; rewrite A2 in Ey; [discriminate|].
-           injection Ey as <- _. rewrite Ex, (is_weak_ty _ Hw). discriminate.
-        -- destruct (ty_value _ Ez) as (Vz & _). rewrite Vz in A2.
-           destruct A2 as (t' & A2). rewrite A2 in Ey. injection Ey as <- _.
-           rewrite Ex, Ez. discriminate.
+           injection Ey as <- _. rewrite Hw. discriminate.
+        -- rewrite Ez in A2. destruct A2 as (t' & A2). rewrite A2 in Ey. injection Ey as <- _.
+           destruct (val_facts _ Ez) as (-> & _). rewrite Ex. discriminate.
     + cbn [hk]. destruct (wv_cases _ Wx) as [Ex|Ex].
-      * destruct (ty_value _ Ex) as (-> & _). eauto.
-      * destruct (ty_weak _ Ex) as (-> & Hw & _). right. eauto.
+      * rewrite Ex. eauto.
+      * destruct (weak_facts _ Ex) as (-> & _). right. eauto.
   - cbn [app] in *. destruct (alt_cons_inv _ _ _ HA) as [HA1 _].
     destruct (alt_cons_inv1 _ _ HA1) as [_ HA2].
     destruct (IH d HA2 Hd) as [A1 A2]. split; [exact A1|].
-    cbn [hk]. destruct (ty_weak _ (is_weak_ty _ Hw)) as (-> & _).
+    cbn [hk]. destruct (weak_facts _ Hw) as (-> & _).
     destruct (xs ++ d) as [|z zs] eqn:Z.
     * left. exact A2.
     * cbn [hk] in A2. destruct (alt_cons_inv _ _ _ HA1) as [_ [[_ Ez]|[Ev _]]].
-      -- destruct (ty_weak _ Ez) as (Vz & _). rewrite Vz in A2. exact A2.
-      -- rewrite (is_value_ty _ Hv) in Ev. discriminate.
+      -- destruct (weak_facts _ Ez) as (Vz & _). rewrite Vz in A2. exact A2.
+      -- destruct (weak_facts _ Ev) as (Vv & _). rewrite Vv in Hv. discriminate.
   - rewrite (Hd Hev) in *. rewrite app_nil_r in *. cbn [app].
     destruct (alt_cons_inv1 _ _ HA) as [Wx _]. split.
     + cbn [alternating]. rewrite Wx. reflexivity.
     + cbn [hk]. rewrite Hv. eauto.
   - rewrite (Hd Hev) in *. cbn [app]. split; [reflexivity|].
-    cbn [hk]. destruct (ty_weak _ (is_weak_ty _ Hw)) as (-> & _). now left.
+    cbn [hk]. destruct (weak_facts _ Hw) as (-> & _). now left.
 Qed.
 
 Lemma hk_visible o xs :
@@ -1974,15 +1990,11 @@ Lemma hk_visible o xs :
 Proof.
   destruct xs as [|x t]; cbn [hk]; [intros ->; reflexivity|]. intros H HA.
   destruct (alt_cons_inv1 _ _ HA) as [Wx _]. destruct (wv_cases _ Wx) as [Ex|Ex].
-  - destruct (ty_value _ Ex) as (Vx & _). rewrite Vx in H. destruct H as (t' & ->). reflexivity.
-  - destruct (ty_weak _ Ex) as (Vx & _ & Tx & _). rewrite Vx in H. cbn [hd_error visible].
+  - rewrite Ex in H. destruct H as (t' & ->). reflexivity.
+  - destruct (weak_facts _ Ex) as (Vx & Tx & _). rewrite Vx in H. cbn [hd_error visible].
     rewrite Tx. destruct H as [->|(w & t' & -> & Hw)]; [reflexivity|].
-    cbn [hd_error visible]. destruct (ty_weak _ (is_weak_ty _ Hw)) as (_ & _ & -> & _).
-    reflexivity.
+    cbn [hd_error visible]. destruct (weak_facts _ Hw) as (_ & -> & _). reflexivity.
 Qed.
-
-Lemma last_value_nonempty xs : last_value xs = true -> xs <> [].
-Proof. destruct xs; [discriminate | discriminate]. Qed.
 
 Lemma wred_empty evict o xs :
   wred evict o xs -> o = [] -> xs = [] \/ evict = true \/ last_value xs = true.
@@ -2026,7 +2038,8 @@ Proof.
 Qed.
 
 (** (b) single delete: a disciplined key keeps its reading, keeps the discipline, and
-    vanishes completely only at the last level or when its pairs cancel completely *)
+    vanishes completely only at the last level or when its pairs cancel completely
+    ([is_val x = negb (is_tomb x)]) *)
 Theorem cstream_weak_top : forall W evict l out log k, ssorted l = true ->
   run_stream W evict no_filter l = (out, log) -> alternating (kents k l) = true ->
   subseq (kents k out) (kents k l) /\
@@ -2036,7 +2049,7 @@ Theorem cstream_weak_top : forall W evict l out log k, ssorted l = true ->
   (forall S, (forall e, In e l -> ukey e = k -> seq e < S) ->
      match kents k l with
      | [] => newest k S out = None
-     | x :: _ => if is_value x then newest k S out = Some x
+     | x :: _ => if negb (is_tomb x) then newest k S out = Some x
                  else visible (newest k S out) = None
      end).
 Proof.
@@ -2053,10 +2066,10 @@ Proof.
     intros e HI. apply HSn. eapply cstream_out_in; eauto. }
   destruct (kents k l) as [|x t] eqn:KL; cbn [hk] in A2.
   - rewrite A2. reflexivity.
-  - destruct (is_value x) eqn:Vx.
+  - change (negb (is_tomb x)) with (is_val x). destruct (is_val x) eqn:Vx.
     + destruct A2 as (t' & ->). reflexivity.
     + destruct A2 as [->|(w & t' & -> & Hw)]; [reflexivity|]. cbn [hd_error visible].
-      destruct (ty_weak _ (is_weak_ty _ Hw)) as (_ & _ & -> & _). reflexivity.
+      destruct (weak_facts _ Hw) as (_ & -> & _). reflexivity.
 Qed.
 
 (** composition with what lies beneath the compaction output: if the key's whole
